@@ -30,7 +30,7 @@ COUNTS = {'quick': 330, 'thorough': 10000}
 BUDGET = {'quick': 110, 'thorough': 1500}
 TIMEOUT = 240
 SHRINK_LISTS = [['events'], ['faults'], ['segments_cut']]
-EXPECTED_PROBES = ['step_rejected', 'double_rejection', 'rejection_adjacent_to_event', 'stale_symbolic', 'resumed',
+EXPECTED_PROBES = ['tconst_altered_between_segments', 'tconst_altered_by_event', 'step_rejected', 'double_rejection', 'rejection_adjacent_to_event', 'stale_symbolic', 'resumed',
                    'limiter_held', 'order_measured', 'variable_step', 'backeuler']
 RULE = ('plans of classes mirror/enum/stale/order/complete (see module doc); non-trivial = at least one accepted step '
         'after a disturbance or a forced rejection; distinct = (class, method, fixt, shrinkt, honest, g_scale>0, sparselib, '
@@ -95,6 +95,11 @@ def elaborate(stub):
     if cls == 'mirror' and stream(seed, 'stock').random() < 0.4:
         plan['disable_stock_events'] = True
         plan['_need_devices'] = True
+    bt = stream(seed, 'between')
+    if cls == 'mirror' and len(segs) > 1 and bt.random() < 0.5:
+        # the user alters a time constant of a differential equation between two resumed segments
+        plan['between'] = [{'kind': 'alter_tconst', 'after_segment': bt.randrange(len(segs) - 1), 'pick': round(bt.random(), 4),
+                            'pick_dev': round(bt.random(), 4), 'factor': bt.choice([0.6, 0.8, 1.3, 1.8])}]
     fr = stream(seed, 'faults.solver')
     nsteps = max(4, int(tf / knobs['TDS.tstep']))
     if cls == 'mirror' and fr.random() < 0.7:
@@ -132,7 +137,7 @@ def _finish(plan, probe):
         mdl = probe.models.get(model)
         return list(mdl.idx.v) if mdl is not None else []
     evs, classes = gen.draw_events(stream(seed, 'events'), case, plan['tf'], plan['knobs']['TDS.tstep'],
-                                   plan['segments_cut'], n_max=3, idx_of=idx_of)
+                                   plan['segments_cut'], n_max=3, idx_of=idx_of, tconst=True)
     from dst.props.c06 import _jsonable
     plan['events'] = [_jsonable(e) for e in evs]
     plan.pop('_need_devices', None)
@@ -187,6 +192,8 @@ def o_end_to_end(hist, ss, plan):
         # f copies taken by the recorder at the end of the accepted attempts (never tds.f0)
         Fk, Fk1 = a['f1'], b['f1']
         h = b['h']
+        if b.get('tf') is not None and len(b['tf']) == n:
+            Tf = b['tf']            # time constants may have been altered during the run
         if theta == 0.5:
             res = Tf * (b['x1'] - a['x1']) - h * 0.5 * (Fk1 + Fk)
         else:
@@ -290,7 +297,7 @@ def execute(plan):
         natural_rej = [a for a in rej if not a.get('forced_reject')]
         if 'TDS.tol' not in plan['knobs'] and (
                 plan['cls'] in ('complete', 'enum', 'stale') or
-                (plan['cls'] == 'mirror' and not plan['disable_stock_events'] and not plan['events'])):
+                (plan['cls'] == 'mirror' and not plan['disable_stock_events'] and not plan['events'] and not plan.get('between'))):
             # well-posed stable plan (stock schedule, measured to run on the pinned tree): must complete,
             # unless a forced rejection meets shrinkt=0 (then failure is the documented outcome)
             forced_fatal = (shrink == 0 and plan['knobs'].get('TDS.fixt', 1) == 1 and
@@ -311,6 +318,9 @@ def execute(plan):
             'backeuler': int(plan['knobs'].get('TDS.method') == 'backeuler'),
             'e2e_pairs_checked': n_e2e, 'run_aborted': int(not tdssim.run_ok(hist)),
             'first_step_checked': int(bool(hist['attempts']) and hist['attempts'][0]['iters'] > 0),
+            'tconst_altered_between_segments': (hist.get('probes') or {}).get('tconst_altered_between_segments', 0),
+            'tconst_altered_by_event': sum(1 for e_ in plan.get('events', []) if e_['model'] == 'Alter' and e_['params'].get('src') == 'M'
+                                           and e_['params'].get('u', 1) == 1 and 0 <= e_['params']['t'] <= tdssim.t_reached(hist)),
         }
         res['e2e_worst'] = hist.get('e2e_worst', 0.0)
         res['faults'] = dict(hist['faults_fired'])
